@@ -190,6 +190,11 @@ def main():
                                 if a.smiles != b.smiles or not close(a.weight, b.weight, 1e-12):
                                     ck.fail("different-molecule-under-same-seed", inp, f"seed {seed}: {a.smiles} vs {b.smiles}")
                                 ck.count("seeded-generation-pairs")
+                            # the object that was used for generation still prints its canonical string (C01: "prints to itself")
+                            if str(m1) != p or m1.generate_string(False) != q:
+                                ck.fail("canonical-string-changes-after-generation", inp, f"before {p!r}, after generate() {str(m1)!r} / {m1.generate_string(False)!r}")
+                            if str(m2) != p:
+                                ck.fail("canonical-string-changes-after-generation", inp, f"object parsed from p: before {p!r}, after generate() {str(m2)!r}")
             except RuntimeError as exc:
                 if "updating stopped" in str(exc):
                     ck.count("skipped_c11_draw_failure")
